@@ -6,6 +6,8 @@
 // quantifier helpers their logical meaning instead of executing the loop.
 package verifspec
 
+import "unsafe"
+
 // Forall reports whether f holds for every i in [lo, hi).
 func Forall(lo, hi int, f func(int) bool) bool {
 	for i := lo; i < hi; i++ {
@@ -33,3 +35,12 @@ func SameBytes(a, b []byte) bool {
 
 // Implies is material implication (both sides are evaluated).
 func Implies(a, b bool) bool { return !a || b }
+
+// Disjoint reports whether the backing ranges [0, cap) of a and b do not overlap.
+func Disjoint(a, b []byte) bool {
+	if cap(a) == 0 || cap(b) == 0 {
+		return true
+	}
+	pa, pb := uintptr(unsafe.Pointer(unsafe.SliceData(a))), uintptr(unsafe.Pointer(unsafe.SliceData(b)))
+	return pa+uintptr(cap(a)) <= pb || pb+uintptr(cap(b)) <= pa
+}
